@@ -27,9 +27,12 @@ ClientDelivers(src, anyPort, firstSeen) ==
 
 \* wild (server side): the server's sockets are wildcard dual-stack ones, on which an IPv4 peer
 \* shows up as an IPv4-mapped IPv6 address
-DgramCases == {[kind |-> "dgram", side |-> s, src |-> r, anyPort |-> a, firstSeen |-> f, proto |-> p, wild |-> w] :
-                 s \in Sides, r \in Srcs, a \in BOOLEAN, f \in BOOLEAN, p \in {"rtp", "rtcp"}, w \in BOOLEAN}
-ValidDgram == {c \in DgramCases : (c.side = "server" => ~c.anyPort) /\ (c.wild => c.side = "server")}
+\* gap (server side): the negotiated client ports are not consecutive (client_port=P-Q, Q # P+1,
+\* which the Transport header allows); the "other port" an RTCP datagram then comes from is P+1
+DgramCases == {[kind |-> "dgram", side |-> s, src |-> r, anyPort |-> a, firstSeen |-> f, proto |-> p, wild |-> w, gap |-> g] :
+                 s \in Sides, r \in Srcs, a \in BOOLEAN, f \in BOOLEAN, p \in {"rtp", "rtcp"}, w \in BOOLEAN, g \in BOOLEAN}
+ValidDgram == {c \in DgramCases : /\ (c.side = "server" => ~c.anyPort) /\ (c.wild => c.side = "server")
+                                  /\ (c.gap => (c.side = "server" /\ ~c.wild /\ c.src \in {"peer", "port"}))}
 \* early: the other connection already presented the session id (a harmless OPTIONS, answered)
 \* while the session was being set up, before it started to stream
 StealCases == {[kind |-> "steal", how |-> h, state |-> st, method |-> m, early |-> e] :
